@@ -231,6 +231,12 @@ pub struct Hostile {
     pub bytes: Bytes,
     /// the connection must end because of this item
     pub must_end: bool,
+    /// instead of `bytes`: an envelope for message `id` whose protocolOp (or controls) is nested this deep
+    #[serde(default)]
+    pub nest: Option<(u32, i64, bool)>,
+    /// announced length of the outer element is larger than the item (the decoder may wait for more)
+    #[serde(default)]
+    pub outer_inflated: bool,
 }
 
 #[derive(Clone, Debug, PartialEq, Serialize, Deserialize)]
@@ -259,6 +265,9 @@ pub struct ServerPlan {
     /// the server closes the connection when the request with this arrival index arrives (before answering)
     #[serde(default)]
     pub close_on_arrival: Option<usize>,
+    /// the server closes the connection when nothing has been emitted for this long after the last emission
+    #[serde(default)]
+    pub close_after_idle_ms: Option<u64>,
 }
 
 #[derive(Clone, Copy, Debug, PartialEq, Eq, Hash, PartialOrd, Ord, Serialize, Deserialize)]
